@@ -27,9 +27,9 @@ type FormParams struct {
 	Seed     int64  `json:"seed"`
 	Shard    int    `json:"shard"`
 	NShards  int    `json:"nshards"`
-	Embed    int    `json:"embed"`    // embeddings (concrete addresses / ports) per abstract form
-	Corrupt  int    `json:"corrupt"`  // number of corrupted descriptions
-	PfdSeqs  int    `json:"pfdSeqs"`  // number of PFD provisioning sequences
+	Embed    int    `json:"embed"`   // embeddings (concrete addresses / ports) per abstract form
+	Corrupt  int    `json:"corrupt"` // number of corrupted descriptions
+	PfdSeqs  int    `json:"pfdSeqs"` // number of PFD provisioning sequences
 }
 
 func formEndpoint(rng *rand.Rand, kind, ports int) pfcpx.FlowEP {
@@ -310,10 +310,20 @@ func C08(c *core.Ctx) {
 		nshards, embed, corrupt, pfd = 14, 10, 1500, 300
 	}
 
-	res := runE2EMixed(c, nshards, "TraceE2E_C08.cfg", func(i int) (string, interface{}) {
+	nup4 := 2
+	if c.Thorough() {
+		nup4 = 6
+	}
+
+	res := runE2EMixed(c, nshards+nup4, "TraceE2E_C08.cfg", func(i int) (string, interface{}) {
 		dir, trace := shardDir(c, i)
+		if i >= nshards { // UP4: inline filters and PFD-provisioned applications become applications entries
+			return "e2e-up4", Up4Params{Dir: dir, Trace: trace, AgentBin: filepath.Join(c.BinDir, "verif-agent"), N4Addr: n4For(i), Seed: c.Seed*1000 + 880 + int64(i),
+				Scenarios: 4, Steps: 30, Pfd: true} // (no boundary precedences: UP4 refuses some of them, which is not about the application)
+		}
+
 		return "e2e-forms", FormParams{Dir: dir, Trace: trace, AgentBin: filepath.Join(c.BinDir, "verif-agent"), N4Addr: n4For(i), Seed: c.Seed*1000 + 80 + int64(i),
 			Shard: i, NShards: nshards, Embed: embed, Corrupt: corrupt, PfdSeqs: pfd}
 	})
-	judgeE2E(c, res, map[string]bool{"InEnvelope": true, "EnvDistinctMatchKeys": true})
+	judgeE2E(c, res, map[string]bool{"InEnvelope": true, "EnvDistinctMatchKeys": true, "Up4Envelope": true})
 }
